@@ -123,7 +123,28 @@ def _listing_checks(p, P):
         rows.append((f"ascent_set_step{step}", P.ascent_set(step), S.ascents(p, step)))
     if n >= 2:
         rows.append(("min_gapsize", P.min_gapsize(), S.min_gapsize(p)))
+    # every documented alias of a counting form promises the same value
+    want_of = {name: want for name, _, want in rows}
+    for alias, target in ALIASES:
+        if target in want_of:
+            rows.append((alias, getattr(P, alias)(), want_of[target]))
     return rows
+
+
+ALIASES = (
+    ("num_ascents", "count_ascents"),
+    ("num_peaks", "count_peaks"),
+    ("num_pinnacles", "count_peaks"),
+    ("num_column_sum_primes", "count_column_sum_primes"),
+    ("num_valleys", "count_valleys"),
+    ("num_ltrmin", "count_ltrmin"),
+    ("num_bonds", "count_bonds"),
+    ("bonds", "count_bonds"),
+    ("num_inc_bonds", "count_inc_bonds"),
+    ("num_dec_bonds", "count_dec_bonds"),
+    ("num_cycles", "count_cycles"),
+    ("num_rtlmax_ltrmin_layers", "count_rtlmax_ltrmin_layers"),
+)
 
 
 def check_perm(case):
